@@ -179,9 +179,31 @@ func (s *Storage) SaveStore(store *metapb.Store) error {
 	return saveProto(s.Base, s.storePath(store.GetId()), store)
 }
 
-// DeleteStore deletes one store from storage.
+// DeleteStore deletes one store from storage, together with its weight keys.
 func (s *Storage) DeleteStore(store *metapb.Store) error {
-	return s.Remove(s.storePath(store.GetId()))
+	id := store.GetId()
+	// The weights live under keys of their own: a later store with the same id must not inherit them.
+	oldLeader, err := s.Load(s.storeLeaderWeightPath(id))
+	if err != nil {
+		return err
+	}
+	oldRegion, err := s.Load(s.storeRegionWeightPath(id))
+	if err != nil {
+		return err
+	}
+	err = s.Remove(s.storeLeaderWeightPath(id))
+	if err == nil {
+		err = s.Remove(s.storeRegionWeightPath(id))
+	}
+	if err == nil {
+		err = s.Remove(s.storePath(id))
+	}
+	if err != nil {
+		// best effort: as far as the caller knows the store record is still there, keep its weights with it
+		s.restoreWeight(s.storeLeaderWeightPath(id), oldLeader)
+		s.restoreWeight(s.storeRegionWeightPath(id), oldRegion)
+	}
+	return err
 }
 
 // LoadRegion loads one region from storage.
